@@ -26,8 +26,9 @@ RULE = ('one evaluation = one seeded run: (a) a single-client history of push/pu
         'conservation (pushed = pulled + remaining); or (c) the same with one consumer process killed at a seeded seam event of a '
         'pull; non-trivial = at least 3 queue operations (a) / a context switch (b, c); distinct = SHA-256 of program or event log')
 RULE += ' ' + 'A fifth of the single-client histories run under JSONDisk (text values, no iteration).'
+RULE += ' ' + 'One seed in 53 places a complete foreign pull at every value-file open of one peek, up to 29 times in a row.'
 ASSUMPTIONS = ['free-running real producer/consumer processes are replaced by seeded schedules of simulated processes']
-PROBES = ('queue_ops', 'cull_expired', 'lock_wait', 'related_prefixes', 'json_disk')
+PROBES = ('queue_ops', 'cull_expired', 'lock_wait', 'related_prefixes', 'json_disk', 'lost_races')
 TECHNIQUE = 'deterministic simulation: model-based checking of queue histories under a virtual clock; seeded schedules + linearizability against a deque model; consumer crash injection'
 LEVEL_TEXT = ('seeded exploration of queue histories and of producer/consumer interleavings under the simulator, decided by an '
               'executable queue model step by step and by a linearizability search for the concurrent runs (exactly-once and '
@@ -44,6 +45,10 @@ ORDINARY = ['x', 'a', 'b-', -5, {'i': str(10 ** 15)}, {'b': b'a-500000000000000'
 
 def gen_case(seed, tier):
     rng = random.Random('%s/c10' % seed)
+    if seed % 53 == 9:
+        n = rng.choice((12, 15, 30))
+        return {'seed': seed, 'cfg': {'kind': 'race', 'n': n, 'lost': rng.choice((1, 3, 9, 10, 11, n - 1)), 'call': 'peek',
+                                      'side': rng.choice(('front', 'back')), 'prefix': rng.choice((None, 'jobs'))}}
     r = rng.random()
     kind = 'seq' if r < 0.55 else ('conc' if r < 0.9 else 'kill')
     mfs = rng.choice((0, 8, 8, 2 ** 15))
@@ -291,7 +296,56 @@ def run_conc(case):
     return dict(base, violations=violations, probes=pr, nontrivial=out['switches'] > 0, outcome={'ops': len(hist), 'remaining': out.get('remaining')})
 
 
+def run_race(case):
+    """peek / pull next to a consumer that takes the front item away every time the caller is about to open its value file (the
+    caller found the row, the file is gone when it opens it): the caller looks again, as often as it takes, and delivers what is
+    at the front then - never 'empty' while items are queued."""
+    from ..world import World
+    cfg = case['cfg']
+    violations = []
+    world = World(case['seed'], clock={'mode': 'frozen'}, yield_clock=False)
+    sim = world.sim
+    try:
+        dc = world.dc
+        path = world.path('c')
+        cache = dc.Cache(path, disk_min_file_size=0)
+        other = dc.Cache(path)
+        keys = [cache.push('item-%02d' % i + 'x' * 50, prefix=cfg['prefix'], side='back') for i in range(cfg['n'])]
+        state = {'left': cfg['lost'], 'busy': False, 'taken': 0}
+
+        def meanwhile(fpath, mode):
+            if state['busy'] or state['left'] <= 0 or 'r' not in mode or not fpath.endswith('.val'):
+                return
+            state['busy'] = True
+            try:
+                other.pull(prefix=cfg['prefix'], side=cfg['side'], retry=True)
+                state['left'] -= 1
+                state['taken'] += 1
+            finally:
+                state['busy'] = False
+        sim.on_open = meanwhile
+        try:
+            got = getattr(cache, cfg['call'])(prefix=cfg['prefix'], side=cfg['side'], retry=True)
+        finally:
+            sim.on_open = None
+        order = keys if cfg['side'] == 'front' else keys[::-1]
+        want_key = order[state['taken']] if state['taken'] < len(order) else None
+        if got[0] != want_key:
+            violations.append({'rule': 'C10/wrong-item-after-lost-races', 'sig': cfg['call'],
+                               'detail': '%s(side=%r) lost the race for the %s item %d times and returned %r; %d items were queued then, the %s one being %r'
+                                         % (cfg['call'], cfg['side'], cfg['side'], state['taken'], got[0], len(order) - state['taken'], cfg['side'], want_key)})
+        other.close()
+        cache.close()
+    finally:
+        world.close()
+    digest = hashlib.sha256(json.dumps(case['cfg'], sort_keys=True).encode()).hexdigest()
+    return {'violations': violations, 'digest': digest, 'steps': cfg['n'], 'switches': 0, 'fired': {}, 'probes': {'lost_races': cfg['lost'], 'queue_ops': cfg['n']},
+            'virtual_s': 0.0, 'nontrivial': True, 'outcome': {'ops': cfg['n']}}
+
+
 def run_case(case):
+    if case['cfg']['kind'] == 'race':
+        return run_race(case)
     if case['cfg']['kind'] != 'seq':
         return run_conc(case)
     def on_step(cache, model, op, got, violations):
